@@ -42,13 +42,13 @@ def make_overlay(path, extra=None):
         for f in files:
             if f.endswith(".go"):
                 rep[os.path.join(REPO, rel, "zz_verif_" + f)] = os.path.join(root, f)
-    if extra:
-        rep.update(extra)
     # experiments only (never used by MANIFEST commands): VERIF_EXTRA_OVERLAY=<json {"/repo/x.go": "/tmp/mutant/x.go"}>
     # lets a candidate patch or a mutant be tried without touching /repo
     xo = os.environ.get("VERIF_EXTRA_OVERLAY")
     if xo:
         rep.update(json.load(open(xo)))
+    if extra:
+        rep.update(extra)  # instrumented copies (generated from the possibly patched sources) win
     with open(path, "w") as fh:
         json.dump({"Replace": rep}, fh, indent=1)
     return path
@@ -57,7 +57,10 @@ def make_overlay(path, extra=None):
 def instrument(pkgs, outdir):
     """Run the step-counter pass over the given repo package dirs; returns overlay additions."""
     os.makedirs(outdir, exist_ok=True)
-    cmd = ["go", "run", "./cmd/instrument", "-repo", REPO, "-out", outdir] + pkgs
+    cmd = ["go", "run", "./cmd/instrument", "-repo", REPO, "-out", outdir]
+    if os.environ.get("VERIF_EXTRA_OVERLAY"):
+        cmd += ["-subst", os.environ["VERIF_EXTRA_OVERLAY"]]  # experiments: instrument the patched file, not /repo's
+    cmd += pkgs
     r = subprocess.run(cmd, cwd=HARNESS, env=goenv(), capture_output=True, text=True)
     if r.returncode != 0:
         raise RuntimeError("instrument failed: " + r.stdout + r.stderr)
@@ -195,6 +198,14 @@ def run_check(pid, tier, seed, replay=None, keep=False):
     for part in spec["parts"]:
         if tier not in part.get("tiers", ("quick", "thorough")):
             continue
+        dep = part.get("skip_if_budget_exceeded_in")
+        if dep:
+            # a decoder that does not return would only cost the uninstrumented twin of this part its whole watchdog
+            # period: the instrumented part has already decided "does not return" deterministically
+            prev = [x for x in parts if x["name"] == dep and x.get("result")]
+            if prev and any(v["sig"].startswith("c07:tick-budget-exceeded") for v in prev[0]["result"]["violations"]):
+                print("[check] %s part %-14s skipped: part %s already reported a tick-budget overrun" % (pid, part["name"], dep), flush=True)
+                continue
         r = run_part(pid, part, tier, seed, outdir, replay)
         parts.append(r)
         print("[check] %s part %-14s exit=%s wall=%.1fs%s" % (pid, r["name"], r["exit"], r["wall"],
